@@ -3,7 +3,7 @@
   One request per line on stdin, one or more answer lines on stdout.
   Strings are sent as '.'-joined decimal code points ("-" = empty string).
 -/
-import HSModel.Calls
+import HSModel.Spec
 open HS
 
 def decStr (s : String) : Option Str :=
@@ -55,6 +55,7 @@ structure DState where
   cfg : Config := { depth := 3, width := 2, alg := "sha256".toList, ns := [] }
   tabs : Tables := {}
   w : World := { st := Store.empty }
+  a : Abs := Abs.empty
 
 def decCall (ws : List String) : Option Call :=
   match ws with
@@ -110,6 +111,13 @@ def stateLines (cfg : Config) (s : Store) : List String :=
   let ds := (s.dirs.flatMap fun (a, k) => dirLines cfg a k).eraseDups.map fun d => "D " ++ d
   (fs ++ ds).toArray.qsort (· < ·) |>.toList
 
+def absLines (a : Abs) : List String :=
+  let ls :=
+    (a.objs.entries.map fun (c, t) => s!"O {strOf c} tok:{t}") ++
+    (a.bind.entries.map fun (p, c) => s!"B {encStr p} {strOf c}") ++
+    (a.docs.entries.map fun ((p, f), t) => s!"M {encStr p} {encStr f} tok:{t}")
+  ls.toArray.qsort (· < ·) |>.toList
+
 def showLocks (l : Locks) : String :=
   let f (xs : List Str) := ",".intercalate (xs.map encStr)
   s!"locks objPid=[{f l.objPid}] refPid=[{f l.refPid}] cid=[{f l.cid}] doc=[{f l.doc}]"
@@ -160,9 +168,9 @@ def handle (st : DState) (line : String) : DState × List String :=
   | ["cfg", d, w, a, ns] =>
     match d.toNat?, w.toNat?, decStr a, decStr ns with
     | some d, some w, some a, some ns =>
-      ({ st with cfg := { depth := d, width := w, alg := a, ns := ns }, w := { st := Store.empty } }, ["ok"])
+      ({ st with cfg := { depth := d, width := w, alg := a, ns := ns }, w := { st := Store.empty }, a := Abs.empty }, ["ok"])
     | _, _, _, _ => (st, ["bad-op"])
-  | ["reset"] => ({ st with w := { st := Store.empty } }, ["ok"])
+  | ["reset"] => ({ st with w := { st := Store.empty }, a := Abs.empty }, ["ok"])
   | ["H", s, h] =>
     match decStr s, decStr h with
     | some s, some h => ({ st with tabs := { st.tabs with hId := (s, h) :: st.tabs.hId } }, [])
@@ -197,6 +205,13 @@ def handle (st : DState) (line : String) : DState × List String :=
     | some k, some n, some t =>
       ({ st with w := { st.w with fault := some { kind := k, target := t, nth := n, persistent := p == "P" } } }, ["ok"])
     | _, _, _ => (st, ["bad-op"])
+  | "scall" :: r =>
+    match decCall r with
+    | none => (st, ["bad-op"])
+    | some c =>
+      let (res, a') := Abs.step st.cfg st.tabs.oracle st.a c
+      ({ st with a := a' }, [showResult st.cfg res])
+  | ["sstate"] => (st, absLines st.a ++ ["."])
   | ["state"] => (st, stateLines st.cfg st.w.st ++ ["."])
   | ["log"] => (st, st.w.log.map (showEff st.cfg) ++ ["."])
   | ["locks"] => (st, [showLocks st.w.lk])
